@@ -280,10 +280,12 @@ PROPS["C17"] = {
     "assumptions": ["x86-64 host with SSE4.2 for the hardware path"],
     "tiers": {
         "quick": [{"mode": "vectors", "workers": 1}, {"mode": "lens", "kv": {"reps": 2}}, {"mode": "bytes", "kv": {"lmax": 40}},
-                  {"mode": "big", "kv": {"maxlen": 1048576, "count": 3}}, {"mode": "rc", "cases": 1500, "workers": 8}],
+                  {"mode": "big", "kv": {"maxlen": 1048576, "count": 3}}, {"mode": "mt", "workers": 4, "kv": {"count": 4000}},
+                  {"mode": "rc", "cases": 1500, "workers": 8}],
         "thorough": [{"mode": "vectors", "workers": 1}, {"mode": "lens", "kv": {"reps": 40}}, {"mode": "bytes", "kv": {"lmax": 200}},
                      {"mode": "big", "kv": {"maxlen": 16777216, "count": 12}},
-                     {"mode": "huge", "workers": 3, "note": "three buffers of 2^32 .. 2^32+1100 bytes"}, {"mode": "rc", "cases": 30000, "workers": 8}],
+                     {"mode": "huge", "workers": 3, "note": "three buffers of 2^32 .. 2^32+1100 bytes"}, {"mode": "mt", "workers": 4, "kv": {"count": 100000}},
+                     {"mode": "rc", "cases": 30000, "workers": 8}],
     },
 }
 
